@@ -53,15 +53,16 @@ def u64WithOverflow (x : Word) : Nat × Bool := (x % U64, x ≥ U64)
 /-- vm/instructions.go `loadDataFromMem` (as repaired): returns the bytes (nil ↦ `[]`) -/
 def loadDataFromMem (ptr : Word) (mem : Bytes) (cap : Nat) : Res Bytes × Work :=
   let memLen := mem.length
-  let (offset, overflow) := u64WithOverflow ptr
-  if overflow ∨ offset > memLen ∨ memLen - offset < 32 then (.err "mem data out of range", {})
+  let offset := ptr % U64                 -- `Uint64WithOverflow`: low 64 bits, overflow iff ptr ≥ 2^64
+  if ptr ≥ U64 ∨ offset > memLen ∨ memLen - offset < 32 then (.err "mem data out of range", {})
   else
     match memGetCopy mem cap (toInt64 offset) 32 with
     | (.panic p, w) => (.panic p, w)
     | (.err e, w) => (.err e, w)
     | (.ok lenBytes, w1) =>
-      let (dataLen, overflow) := u64WithOverflow (setBytes (lenBytes.getD []))
-      if overflow ∨ dataLen > memLen - offset - 32 then (.err "mem data too long", w1)
+      let lenWord := setBytes (lenBytes.getD [])
+      let dataLen := lenWord % U64
+      if lenWord ≥ U64 ∨ dataLen > memLen - offset - 32 then (.err "mem data too long", w1)
       else
         match memGetCopy mem cap (toInt64 ((offset + 32) % U64)) (toInt64 dataLen) with
         | (.panic p, w) => (.panic p, w1.add w)
@@ -111,15 +112,22 @@ def liftKey (r : Tracer × Option String) : Res Tracer :=
   | none => .ok r.1
   | some e => .err e
 
+/-- the shape shared by the four key-journal opcodes that read a name / index key from memory -/
+def keyFromMem (ptr : Word) (env : JEnv) (f : Bytes → Tracer × Option String) : Res Tracer × Work :=
+  match loadDataFromMem ptr env.mem env.memCap with
+  | (.ok name, w) => (liftKey (f name), w)
+  | (.err e, w) => (.err e, w)
+  | (.panic p, w) => (.panic p, w)
+
 /-- one journal instruction; `args` are the popped operands, first popped first -/
 def Journal.exec (op : JOp) (args : List Word) (env : JEnv) (tr : Tracer) : Res Tracer × Work :=
   match op, args with
   | .vv, [slot, offset, typeSize, typeId] =>
-    let (offU, ov1) := u64WithOverflow offset
-    if ov1 ∨ offU > 31 then (.err "offset out of range", {})
+    let offU := offset % U64
+    if offset ≥ U64 ∨ offU > 31 then (.err "offset out of range", {})
     else
-      let (szU, ov2) := u64WithOverflow typeSize
-      if ov2 ∨ szU > 32 - offU then (.err "type size out of range", {})
+      let szU := typeSize % U64
+      if typeSize ≥ U64 ∨ szU > 32 - offU then (.err "type size out of range", {})
       else
         let w := env.storage slot
         match goSlice (bytes32 w) 32 ((32 - offU - szU) % U64) ((32 - offU) % U64) with
@@ -146,29 +154,44 @@ def Journal.exec (op : JOp) (args : List Word) (env : JEnv) (tr : Tracer) : Res 
         | .err e => (.err e, { reads := 1 + n, copied := 32 * n, alloc := 32 * n })
         | .panic p => (.panic p, { reads := 1 + n, copied := 32 * n, alloc := 32 * n })
   | .rsv, [ptr, slot, typeId] =>
-    match loadDataFromMem ptr env.mem env.memCap with
-    | (.ok name, w) => (liftKey (tr.saveStateKey env.contract none slot none typeId 0 name), w)
-    | (.err e, w) => (.err e, w)
-    | (.panic p, w) => (.panic p, w)
+    keyFromMem ptr env (fun name => tr.saveStateKey env.contract none slot none typeId 0 name)
   | .vsv, [ptr, slot, offset, typeId] =>
-    match loadDataFromMem ptr env.mem env.memCap with
-    | (.ok name, w) => (liftKey (tr.saveStateKey env.contract none slot (some offset) typeId 0 name), w)
-    | (.err e, w) => (.err e, w)
-    | (.panic p, w) => (.panic p, w)
+    keyFromMem ptr env (fun name => tr.saveStateKey env.contract none slot (some offset) typeId 0 name)
   | .irvv, [base, slot, keyPtr, offset, typeId, parentTypeId] =>
-    match loadDataFromMem keyPtr env.mem env.memCap with
-    | (.ok ix, w) => (liftKey (tr.saveStateKey env.contract (some base) slot (some offset) typeId parentTypeId ix), w)
-    | (.err e, w) => (.err e, w)
-    | (.panic p, w) => (.panic p, w)
+    keyFromMem keyPtr env (fun ix => tr.saveStateKey env.contract (some base) slot (some offset) typeId parentTypeId ix)
   | .irvr, [base, slot, keyPtr, typeId, parentTypeId] =>
-    match loadDataFromMem keyPtr env.mem env.memCap with
-    | (.ok ix, w) => (liftKey (tr.saveStateKey env.contract (some base) slot none typeId parentTypeId ix), w)
-    | (.err e, w) => (.err e, w)
-    | (.panic p, w) => (.panic p, w)
+    keyFromMem keyPtr env (fun ix => tr.saveStateKey env.contract (some base) slot none typeId parentTypeId ix)
   | .ivvv, [base, slot, keyValue, offset, typeId, parentTypeId] =>
     (liftKey (tr.saveStateKey env.contract (some base) slot (some offset) typeId parentTypeId (bytes32 keyValue)), {})
   | .ivvr, [base, slot, keyValue, typeId, parentTypeId] =>
     (liftKey (tr.saveStateKey env.contract (some base) slot none typeId parentTypeId (bytes32 keyValue)), {})
   | _, _ => (.panic "stack underflow (excluded by the jump table's minStack)", {})
+
+end Artela
+
+namespace Artela
+
+/-- the part of the interpreter's machine state a contract can observe, plus the Artela tracer -/
+structure JMachine (World : Type) where
+  stack    : List Word          -- top first
+  mem      : Bytes
+  pc       : Nat
+  gas      : Nat
+  rdata    : Bytes              -- return-data buffer
+  readOnly : Bool
+  world    : World              -- balances, storage, logs, … (opaque)
+  tr       : Tracer
+
+/-- One interpreter step executing journal instruction `op` (interpreter.go `Run` loop body for these table
+    entries: stack check from `minStack`, dynamic gas `makeGasJournal`, no memory-size function, `execute`,
+    `pc++`).  `mkEnv` builds the read-only view the opcode takes of the world (storage of the executing contract). -/
+def Journal.step {World : Type} (op : JOp) (mkEnv : World → Bytes → JEnv) (m : JMachine World) : Res (JMachine World) :=
+  if m.stack.length < op.arity then .err "stack underflow"
+  else if m.gas < journalFee then .err "out of gas"
+  else
+    match (Journal.exec op (m.stack.take op.arity) (mkEnv m.world m.mem) m.tr).1 with
+    | .ok tr' => .ok { m with stack := m.stack.drop op.arity, pc := m.pc + 1, gas := m.gas - journalFee, tr := tr' }
+    | .err e => .err e
+    | .panic p => .panic p
 
 end Artela
